@@ -325,6 +325,7 @@ class Runner:
         self.halted = False         # a refused in-place mutation may leave its target half-changed: the history ends there
         self.last = None            # the last performed rewrite: (kind, new name, [old names])
         self.wraps = []             # ext5: (driver request `nest_wrap`, what the implementation did, pipeline name, nested function name)
+        self.shared = {}            # round 9: function name -> the ONE Python callable all functions of that name wrap (`"shared": True` environments)
         for name, d in env_descs:
             try:
                 self._add_env(name, d)
@@ -341,7 +342,13 @@ class Runner:
     def _add_env(self, name, d):
         if True:
             desc = d["desc"]
-            if d["kind"] == "call":
+            if d["kind"] == "call" and d.get("shared"):
+                # round 9 (harness/c10_join.py): functions of one name share one callable across the pipelines of the environment
+                import c10_join as J
+                p = quiet(J.build_shared, desc, self.shared, NullLog())
+                funcs = PK.strip(desc["funcs"])
+                ent = Ent(p, "call", {}, {})
+            elif d["kind"] == "call":
                 p, _ = PK.build_call(desc, log=NullLog(), defaults_in_signature=not d.get("explicit_defaults", False))
                 funcs = PK.strip(desc["funcs"])
                 ent = Ent(p, "call", {}, {})
@@ -352,6 +359,8 @@ class Runner:
                           kinds=dict(desc["input_kinds"]))
             ent.tags = {r: r for r in self.roots(p)}
             ent.labels = {o: o for o in p.all_output_names}
+            if d.get("shared"):
+                ent.labels = {c: o for f in desc["funcs"] for c, o in zip(f["outputs"], f.get("outorig") or f["outputs"])}
             ent.rets = {o: f.get("ret") for f in desc["funcs"] for o in f["outputs"]} if d["kind"] == "map" else {}
             self.env[name] = ent
             self.env_req.append([name, {"funcs": funcs}])
@@ -479,6 +488,10 @@ class Runner:
         self.counts.append(f"op:{kind}")
         if kind in MUTATIONS or kind in MUTATIONS_X:
             return self.apply_mutation(op)
+        if kind == "join_x":            # round 9: join / | with any number of operands, bare PipeFunc operands, overlapping operands
+            import c10_join as J
+            import sys
+            return J.apply_join(self, op, sys.modules[__name__])
         src = self.env[op["src"]]
         rho = lambda n: n  # noqa: E731
         cats = []
@@ -818,6 +831,10 @@ class Runner:
         m = {k: v for k, v in op.items() if k not in ("malformed", "via", "sibling", "pair", "after", "which", "tuple1")}
         if isinstance(m.get("func"), dict) and "picker" in m["func"]:
             m["func"] = {k: v for k, v in m["func"].items() if k != "picker"}      # the picker style is invisible in the values
+        if m.get("op") == "join":
+            # round 9: the driver executes `Pipeline.join` as written (`PF.Rw.Join.joinAll`: every prefix of the constructor loop is
+            # validated, a cycle is refused) - the model the C10Join theorems are about - for the two-pipeline joins of every stream too
+            m = {"op": "join_x", "src": m["src"], "others": [{"p": m["other"]}], "dst": m["dst"]}
         return m
 
     def scope_categories(self, p, op):
@@ -1102,7 +1119,7 @@ class Runner:
 # by the harness's own lookup of the selected output, not by pipefunc), `scope` with "*","*" (no refusal was ever observed), refused
 # evaluations and maps (none / 4 observed).  Messages are never compared.
 CLASS_CHECKED = {
-    "join": {"ValueError"}, "rename": {"ValueError"}, "scope_sel": {"ValueError"}, "mut_scope": {"ValueError"},
+    "join": {"ValueError", "RecursionError"}, "join_x": {"ValueError", "RecursionError"}, "rename": {"ValueError"}, "scope_sel": {"ValueError"}, "mut_scope": {"ValueError"},
     "nest": {"ValueError", "RecursionError"}, "simplify": {"ValueError", "KeyError", "NotImplementedError"}, "split": {"ValueError"},
     "mut_drop": {"KeyError"}, "mut_replace": {"KeyError"}, "mut_add": {"ValueError"},
     "rename_x": {"ValueError", "RecursionError"}, "mut_rename_x": {"ValueError", "RecursionError"}, "mut_frename": {"ValueError"},
@@ -1147,6 +1164,12 @@ def judge_model(runner, steps):
     for pl, st in zip(runner.plan, steps):
         if pl["kind"] == "op":
             impl, op = pl["impl"], pl["op"]
+            if "wf" in st:
+                # round 9: the hypothesis WF of the C10_renames_* theorems, decided by `wfB` on every function before this update_renames call
+                runner.counts.append(f"theorem-domain:C10_renames:{'in' if st['wf'] else 'out'}")
+                if st["wf"] is False:
+                    yield (f"{op['op']}: a function of the object does not pass wfB (hypothesis WF of C10_renames_pipeline_checked fails on this case)",
+                           False, "theorem:C10_renames_pipeline_checked-hypothesis", impl.get("summary"), st.get("summary"))
             if "err" in impl and "err" in st:
                 runner.counts.append(f"refusal-class:{op['op']}:{impl['err']}/{st['err']}")
                 if op["op"] in ("nest", "simplify"):
@@ -1159,6 +1182,14 @@ def judge_model(runner, steps):
                         # order of a Python set (hash seed) - not a fact of the code (found in the ext5 thorough run; two functions: no)
                         runner.counts.append("refusal-reason:nest:order-dependent-among-index-reasons")
                     elif ri != rm and "other" not in (ri, rm):
+                        yield (f"{op['op']} is refused by both, but the implementation's reason is `{ri}` ({impl.get('msg', '')[:70]}) and the model's `{rm}`",
+                               False, f"correspondence:{op['op']}-refusal-reason", impl, st)
+                if op["op"] in ("join", "join_x"):
+                    # round 9: WHY a join is refused (the documented refusals, read off the message; anything else is `other`, not compared)
+                    import c10_join as J
+                    ri, rm = J.impl_reason(impl), J.model_reason(st)
+                    runner.counts.append(f"refusal-reason:{op['op']}:{ri}/{rm}")
+                    if ri != rm and "other" not in (ri, rm):
                         yield (f"{op['op']} is refused by both, but the implementation's reason is `{ri}` ({impl.get('msg', '')[:70]}) and the model's `{rm}`",
                                False, f"correspondence:{op['op']}-refusal-reason", impl, st)
                 if st["err"] in CLASS_CHECKED.get(op["op"], ()) and impl_class(impl["err"]) != st["err"]:
@@ -1185,6 +1216,21 @@ def judge_model(runner, steps):
                            False, "theorem:C10_add_axis_kahn", impl["summary"], st["summary"])
             if op["op"] in ("nest", "simplify") and "domain" in st:
                 runner.counts.append(f"theorem-domain:C10_{op['op']}:{'in' if st['domain'] else 'out'}")
+            if "order" in impl and "order" in st and impl["order"] != st["order"]:
+                # round 9: the joined pipeline lists the operands' functions in operand order (`C10_join_accepts_iff`)
+                yield (f"{op['op']}: the functions of the joined pipeline are listed in the order {impl['order']}, the model's concatenation is {st['order']}",
+                       False, f"correspondence:{op['op']}-order", impl["order"], st["order"])
+            if "rule" in impl and "keeps" in st:
+                # round 9: the check's rule "compare an operand's output with the joined pipeline unless another operand produces one of its root
+                # arguments" against the decidable hypothesis `joinKeeps` of C10_join_each_checked, output by output
+                keeps = {(i, o): k for i, o, k in st["keeps"]}
+                for i, o, compared in impl["rule"]:
+                    k = keeps.get((i, o))
+                    runner.counts.append(f"theorem-domain:C10_join_each_checked:{'in' if k else 'out'}:{'compared' if compared else 'skipped'}")
+                    if k is not None and k != compared:
+                        yield (f"{op['op']}: output `{o}` of operand {i} is {'compared with' if compared else 'not compared with'} the joined pipeline by the "
+                               f"check's rule, but joinKeeps (hypothesis of C10_join_each_checked) is {k}", False, f"correspondence:{op['op']}-cone", compared, k)
+                        break
             ms = model_summary(st["summary"])
             if ms != impl["summary"]:
                 yield (f"structure after {op['op']} (parameters/outputs/defaults/bound/MapSpec) differs from the model", False,
